@@ -5,6 +5,7 @@
    conflicting plain accesses under sequentially consistent atomics/mutexes), the scheduler, sync.Pool internals. *)
 From Coq Require Import List NArith Arith Lia Bool.
 From Verif Require Import Gen.Cache C06.Model C06.ProofsList C06.Proofs.
+From Verif Require Gen.Reset C12.Model C12.Proofs.
 Import ListNotations.
 
 (* in every reachable state every published slice is sorted, duplicate-free and maps k to F k; every snapshot a
@@ -66,6 +67,27 @@ Theorem C06_pool_exclusive : forall s, preachable s ->
 Proof. exact pool_lemma. Qed.
 Print Assumptions C06_pool_exclusive.
 
+(* pooled side encoders/decoders carry state and go back to the pool as their last user left them (an operation
+   may have aborted inside one).  Under the discipline the translator reads off the code (side_coder_reset_first:
+   every user resets the object before anything else) a use never observes another goroutine's leftovers: the
+   state it sees is the initial one or its own *)
+Theorem C06_pool_state : forall s, qreachable s -> forall t o s',
+  qstep s t (QUse o) = Some s' -> qowner s o = Some t /\ (qtaint s o = None \/ qtaint s o = Some t).
+Proof. exact pool_state_lemma. Qed.
+Print Assumptions C06_pool_state.
+
+(* ... and that reset really restores the initial state: every field the 20 state structs of an Encoder/Decoder
+   declare in the current source is assigned on the reset path or is behaviour-neutral (Gen/Reset.v; this is
+   C12_fields, needed here because the pooled coders are shared by all goroutines using the Handle) *)
+Theorem C06_pool_reset_complete : C12.Proofs.fields_ok = true.
+Proof. exact C12.Proofs.fields_lemma. Qed.
+Print Assumptions C06_pool_reset_complete.
+
+(* the reset is necessary: without it a thread can hold an object that still carries another thread's state *)
+Example C06_pool_leftover_nonvacuous :
+  exists s, qreachable s /\ qowner s 0 = Some 1 /\ qtaint s 0 = Some 0 /\ qready s 0 = false.
+Proof. exact pool_leftover_lemma. Qed.
+
 (* what the translator read off the current source (all loaders, generic and monomorphised; every sync.Pool user returns an object only after its last use — the code side of the contract C06_pool_exclusive assumes): the protocol the
    model is a model of.  Breaks when the code changes shape. *)
 Theorem C06_src_facts :
@@ -73,7 +95,8 @@ Theorem C06_src_facts :
   lock_balanced = true /\ no_foreign_call_under_lock = true /\ store_sites_only_loaders = true /\
   entry_keyed = true /\ init_double_checked = true /\ init_flag_store_last = true /\
   init_unlock_deferred = true /\ inited_writers_ok = true /\
-  pool_put_after_last_use = true /\ 4 <= pool_put_sites /\ find_cmp_lt = true /\ find_final_eq = true /\
+  pool_put_after_last_use = true /\ 4 <= pool_put_sites /\
+  naked_templates_copied = true /\ 7 <= naked_template_uses /\ side_coder_reset_first = true /\ 10 <= side_coder_sites /\ find_cmp_lt = true /\ find_final_eq = true /\
   3 <= loaders_checked /\ loaders_checked = finders_checked /\
   find_shift = 1 /\ find_lo_inc = 1 /\ ins_len_inc = 1 /\ ins_hi_dst = 1 /\ ins_hi_src = 0 /\ ins_lo_dst = 0 /\ ins_set = 0.
 Proof. exact src_facts_lemma. Qed.
